@@ -1223,7 +1223,9 @@ class Ctx:
                     return True
             except z3.Z3Exception:
                 pass
-        r = self.check(cond) != z3.unsat
+        rr = self.check(cond)
+        r = rr != z3.unsat
+        self.witness = self.last_model() if rr == z3.sat else None
         self.qlog.append(r)
         return r
 
@@ -1354,8 +1356,9 @@ class Ctx:
 
     def hazard(self, kind, detail="", with_model=False):
         m = None
-        if with_model and self.model is not None:
-            m = self.model_inputs(self.model)
+        w = getattr(self, "witness", None)
+        if with_model and w is not None:
+            m = self.model_inputs(w)          # inputs that make the hazardous operand zero / out of domain on this path
         self.hazards.append((kind, detail, list(self.decisions), m))
 
     def out(self, name, value):
